@@ -112,8 +112,8 @@ func fileExists(name string) (bool, error) {
 
 func (o *Options) populateGlobals(c *cli.Context) error {
 	if c.Bool("no-database") {
-		// no file name: the commands work with an empty database
-		o.GlobalConfig.DbFileName = ""
+		// the null device stands for the empty database; an empty file name stays what it is, a file that cannot be opened
+		o.GlobalConfig.DbFileName = os.DevNull
 	} else if c.IsSet("database") || o.GlobalConfig.DbFileName == "" {
 		o.GlobalConfig.DbFileName = c.String("database")
 	}
